@@ -33,7 +33,19 @@ def cert_stage(res, tier, need, kernel_theorems, prop, extra_caps=()):
     res.count('certificate_definitions', len(allcaps))
     res.count('certificate_graph_states', sum(len(c.graph['states']) for c in allcaps))
     res.count('certificate_dfa_states', sum(len(c.dfa['states']) for c in allcaps))
-    ext = certs.extracted_certs(drv, allcaps)
+    construction = {} if prop == 'C01' else None
+    ext = certs.extracted_certs(drv, allcaps, construction)
+    if construction is not None:
+        # the modelled construction (Engine/GraphBuild.v, theorem C01_maximal_munch_built) against the real Graph::new.
+        # A second, certificate-free route to the same conclusion: a disagreement is reported in the evidence and the log;
+        # the property is decided by the certificates below (a harmless rewrite of Graph::new must not raise an alarm).
+        side = sum(1 for v in construction.values() if v and all(v[:5]))
+        sim = sum(1 for v in construction.values() if v and v[5])
+        res.cov['graph_construction_model'] = dict(definitions=len(construction), side_conditions_hold=side, bisimilar_to_captured_graph=sim,
+                                                   theorem='C01_maximal_munch_built', checker='extracted build_checked / gsim_ok')
+        for k, v in construction.items():
+            if not (v and all(v)):
+                log('construction model: %s side=%s gsim=%s' % (k, v[:5] if v else None, v[5] if v else None))
     failing = []
     idx = [CERT_NAMES.index(n) for n in need]
     for c in allcaps:
@@ -72,7 +84,22 @@ def search_failing_input(c, drv, res, judge_tags):
     diag = certs.diagnose(c)
     rng = random.Random(seed())
     cands = []
-    for kind, s, q, u in diag[:12]:
+    # pairs whose DFA side is already dead (the graph follows an edge the DFA does not have): the path into the
+    # pair, completed to a token in the graph, is the candidate.  They flood the list, so take each pair once.
+    seen_dead = set()
+    for kind, s, q, u in diag:
+        if s is None or q != 0 or s in seen_dead or len(seen_dead) >= 6:
+            continue
+        seen_dead.add(s)
+        p = certs.path_to_pair(c, s, q)
+        if p is None:
+            continue
+        comp = certs.graph_completion(c, s)
+        cands += [p, p + b' ']
+        if comp is not None:
+            cands += [p + comp, p + comp + b' ', p + comp + comp[-1:]]
+    live_diag = [x for x in diag if x[2] != 0]
+    for kind, s, q, u in live_diag[:12]:
         if s is None or q is None:
             continue
         p = certs.path_to_pair(c, s, q)
@@ -82,6 +109,11 @@ def search_failing_input(c, drv, res, judge_tags):
         if u is not None and u < 256:
             tails = [bytes([u]), bytes([u]) * 2, bytes([u]) + b'a', bytes([u]) + b' ']
             st = c.graph['states'].get(s)
+            t = capmod.edge_target(st, u) if st else None
+            if t is not None:
+                comp = certs.graph_completion(c, t)
+                if comp is not None:
+                    tails += [bytes([u]) + comp, bytes([u]) + comp + b' ', bytes([u]) + comp + comp[-1:]]
         for t in tails:
             cands.append(p + t)
     cands += ce.make_probes(c, rng, 'quick')
@@ -160,6 +192,11 @@ def engine_property(prop, tier, theorems, need, kernel_theorems, fss, modes, wan
     t0 = _t.time(); sets = ce.compiled_sets(tier, fss); log('stage harness %.1fs' % (_t.time() - t0))
     t0 = _t.time(); failing, drv = cert_stage(res, tier, need, kernel_theorems, prop, curated_caps(sets, fss[0])); log('stage certificates %.1fs' % (_t.time() - t0))
     report_cert_failures(res, failing, drv, judge)
+    if prop == 'C01':
+        t0 = _t.time()
+        repo_caps, rand_caps = ce.corpora(tier, res)
+        k11_byteclass(res, tier, [c for c in list(repo_caps) + list(rand_caps) if ce.usable(c)])
+        log('stage k11 %.1fs' % (_t.time() - t0))
     t0 = _t.time(); mism = ce.run_k2(res, sets, fss, tier, modes=modes, drv=drv); log('stage k2 %.1fs' % (_t.time() - t0))
     nm = report_k2(res, mism, sets, want, prop)
     res.oblige(nm == 0)
@@ -176,8 +213,95 @@ RULE_ENGINE = ('every accepted definition of the repo / curated / seeded random 
                'self-loop run lengths 0..17 and around multiples of 8, random token-biased inputs with noise; compared: %s')
 
 
+def bytes_to_ranges(bs):
+    out = []
+    for b in sorted(set(bs)):
+        if out and out[-1][1] + 1 == b:
+            out[-1][1] = b
+        else:
+            out.append([b, b])
+    return [tuple(r) for r in out]
+
+
+def k11_byteclass(res, tier, caps):
+    """Correspondence K11: ByteClass::merge / impl_with_cmp / count_ops / to_table (hook re-export byteclass_ops)
+    against Engine/ByteClass.v (merge, with_cmp, cmp_count, to_table, cond_eval) evaluated by vm_compute."""
+    import coqeval, frontgen
+    rng = random.Random(seed() * 131 + 11)
+    cases = []
+    # classes on the edges of captured graphs: neighbouring edges of one state are what de-duplication may fold
+    pool = []
+    for c in caps:
+        for s, st in c.graph['states'].items():
+            es = [tuple(map(tuple, rs)) for t, rs in st['edges']]
+            for i in range(len(es)):
+                pool.append((es[i], es[(i + 1) % len(es)] if len(es) > 1 else ()))
+    rng.shuffle(pool)
+    seen = set()
+    for a, b in pool:
+        if (a, b) not in seen and len(seen) < (150 if tier == 'quick' else 1500):
+            seen.add((a, b)); cases.append((list(a), list(b)))
+    res.count('k11_classes_from_captured_graphs', len(cases))
+    # random classes, rich in one- and two-byte gaps and in the corners 0 and 255
+    def rand_class():
+        k = rng.random()
+        if k < 0.3:
+            base = rng.choice([0, 1, 30, 97, 200, 250]); bs = [base + d for d in range(0, 14) if rng.random() < 0.6 and base + d < 256]
+        elif k < 0.5:
+            holes = rng.sample(range(256), rng.randint(1, 4)); bs = [x for x in range(256) if x not in holes]
+        elif k < 0.7:
+            lo = rng.randint(0, 250); bs = [lo + 2 * i for i in range(rng.randint(1, 5)) if lo + 2 * i < 256]
+        else:
+            bs = [rng.randint(0, 255) for _ in range(rng.randint(0, 12))]
+        return bytes_to_ranges(bs)
+    nrand = 250 if tier == 'quick' else 2500
+    for _ in range(nrand):
+        a = rand_class(); b = rand_class() if rng.random() < 0.8 else []
+        if rng.random() < 0.3 and a:
+            # a class one missing byte away from the other: the shape the +1 / +2 arithmetic is about
+            hi = a[-1][1]
+            if hi + 2 <= 255:
+                b = [(hi + 2, min(255, hi + 2 + rng.randint(0, 3)))]
+        cases.append((a, b))
+    res.count('k11_random_class_pairs', nrand)
+    hx = lambda rs: (''.join('%02x%02x' % (lo, hi) for lo, hi in rs) or '-')
+    real = frontgen.front_tool('byteclass', ['k%d %s %s' % (i, hx(a), hx(b)) for i, (a, b) in enumerate(cases)])
+    cq = lambda rs: '[' + '; '.join('(%d, %d)' % (lo, hi) for lo, hi in rs) + ']'
+    vals = coqeval.coq_eval(['bc_report %s %s' % (cq(a), cq(b)) for a, b in cases],
+                            'From LogosV Require Import Engine.Model Engine.ByteClass.', 'bc', shard=max(40, len(cases) // 16 + 1))
+    nbad = 0
+    for i, ((a, b), v) in enumerate(zip(cases, vals)):
+        r = real.get('k%d' % i, '')
+        if r.startswith('panic'):
+            exp = None
+        else:
+            parts = [x.strip() for x in r.split('|')]
+            flat = []
+            for rr in [x for x in parts[0].split(',') if x]:
+                lo, hi = rr.split('-'); flat += [int(lo), int(hi)]
+            flat.append(999)
+            for cc in [x for x in parts[1].split(',') if x]:
+                rg, _, ex = cc.partition(':'); lo, hi = rg.split('-'); exs = [int(e) for e in ex.split('+') if e]
+                flat += [int(lo), int(hi), len(exs)] + exs
+            flat += [999, int(parts[2]), 999] + [int(ch) for ch in parts[3]] + [999]
+            exp = flat
+        # the last block of the model's report is cond_eval on every byte: by theorem C01_edge_condition_exact equal to the table
+        ok = exp is not None and v[:len(exp)] == exp and v[len(exp):] == [int(ch) for ch in parts[3]]
+        # and the union itself, computed here independently
+        if ok:
+            want = [1 if any(lo <= x <= hi for lo, hi in a + b) else 0 for x in range(256)]
+            ok = want == [int(ch) for ch in parts[3]]
+        res.oblige(ok)
+        if not ok:
+            nbad += 1
+            if nbad <= 4:
+                res.violation(None, 'ByteClass merge/comparisons of %s and %s: code %s, model %s' % (a, b, r[:160], v[:40]),
+                              dict(class_a=a, class_b=b, real=r, model=v, no_longer_checks='correspondence K11 (ByteClass vs Engine/ByteClass.v)'), found_input=False)
+    res.cov['k11_byteclass_pairs'] = len(cases)
+
+
 def check_C01(tier):
-    return engine_property('C01', tier, ['C01_maximal_munch', 'C01_stream_eq_spec'], ['dfa_ok', 'sim_ok', 'exact_ok'], [certs.TH_C01, certs.TH_C01S], ['tc', 'sm'], (0,),
+    return engine_property('C01', tier, ['C01_maximal_munch', 'C01_stream_eq_spec', 'C01_construction_correct', 'C01_maximal_munch_built', 'C01_bisimilar_graphs_agree', 'C01_merged_class_is_union', 'C01_merged_class_canonical', 'C01_edge_condition_exact'], ['dfa_ok', 'sim_ok', 'exact_ok'], [certs.TH_C01, certs.TH_C01S], ['tc', 'sm'], (0,),
                            {'ok-item', 'spec-ok-item', 'graph-differs'}, {'ok-item'},
                            RULE_ENGINE % ('dfa_ok+sim_ok', 'Ok items (variant, span) and item kinds, per feature set, against the graph executor and the DFA-level specification'),
                            ASSUME_ENGINE)
@@ -193,7 +317,7 @@ def check_C02(tier):
 
 def check_C03(tier):
     return engine_property('C03', tier, ['C03_tiling', 'C03_none_absorbing', 'C03_fb_str_ok'], ['dfa_ok', 'sim_ok', 'exact_ok'],
-                           [certs.TH_C03], ['tc', 'sm'], (0,),
+                           [certs.TH_C03], ['tc', 'sm', 'tcsafe'], (0,),
                            {'tiling', 'spec-tiling', 'panic'}, {'tiling'},
                            RULE_ENGINE % ('dfa_ok (no empty match)+sim_ok+exact_ok', 'span sequences: strictly increasing, contiguous modulo skips, final None with span len..len, None absorbing (3 further calls)'),
                            ASSUME_ENGINE)
@@ -701,7 +825,19 @@ def utf8_cert_stage(res, tier, prop, extra_files=()):
     repo_caps, rand_caps = ce.corpora(tier, res)
     extra = build.capture_files(list(extra_files), prop + '-extra') if extra_files else []
     allcaps = [c for c in list(repo_caps) + list(rand_caps) + list(extra) if ce.usable(c)]
-    ext = certs.extracted_certs(drv, allcaps)
+    construction = {} if prop == 'C01' else None
+    ext = certs.extracted_certs(drv, allcaps, construction)
+    if construction is not None:
+        # the modelled construction (Engine/GraphBuild.v, theorem C01_maximal_munch_built) against the real Graph::new.
+        # A second, certificate-free route to the same conclusion: a disagreement is reported in the evidence and the log;
+        # the property is decided by the certificates below (a harmless rewrite of Graph::new must not raise an alarm).
+        side = sum(1 for v in construction.values() if v and all(v[:5]))
+        sim = sum(1 for v in construction.values() if v and v[5])
+        res.cov['graph_construction_model'] = dict(definitions=len(construction), side_conditions_hold=side, bisimilar_to_captured_graph=sim,
+                                                   theorem='C01_maximal_munch_built', checker='extracted build_checked / gsim_ok')
+        for k, v in construction.items():
+            if not (v and all(v)):
+                log('construction model: %s side=%s gsim=%s' % (k, v[:5] if v else None, v[5] if v else None))
     failing = []
     nstr = 0
     for c in allcaps:
@@ -986,6 +1122,11 @@ def check_C09(tier):
                 if l['idx'] in ms:
                     wn = dfa.win(dfa.step(q, u))
                     res.count('token_vs_regex_states')
+                    if wn and wn[0] == 'tie' and l['prio'] == max(dfa.prio[m] for m in ms):
+                        nb += 1
+                        if nb <= 4:
+                            res.violation(None, '%s: literal %r ties at the top priority on its own text, yet the derive accepted the definition (it neither wins nor is an ambiguity reported)' % (c.id, w),
+                                          dict(definition=c.source, input_hex=w.hex(), token_leaf=l['idx'], matching_leaves=list(ms)))
                     if wn and wn[0] == 'one' and wn[1] != l['idx']:
                         other = c.leaves[wn[1]]; oa = c.attrs[wn[1]]
                         if oa.get('kind') != 'token' and oa.get('prio', '-') == '-' and a.get('prio', '-') == '-':
@@ -1614,6 +1755,24 @@ def c19_random(rng, n):
     return out
 
 
+C19_NULLABLE = ['a*', '(a|)', '', 'a?b?', '(ab|)c?', '[0-9]*', '(a*)*', '$', 'a*$', '(?:x|y*)', 'a{0,3}', '(a|b)*']
+
+
+def c19_nullable():
+    """Definitions that are well formed except for one pattern that can match the empty string."""
+    out = []
+    k = 0
+    for bmode in (False, True):
+        hdr = '#[logos(utf8 = false)] ' if bmode else ''
+        lit = (lambda x: 'b"%s"' % x) if bmode else (lambda x: '"%s"' % x)
+        for rx in C19_NULLABLE:
+            out.append('#[derive(Logos)] %senum Nul%d { #[regex(%s)] A, #[token(%s)] B }' % (hdr, k, lit(rx), lit('q'))); k += 1
+            out.append('#[derive(Logos)] %s#[logos(skip %s)] enum Nul%d { #[token(%s)] B }' % (hdr, lit(rx), k, lit('q'))); k += 1
+            out.append('#[derive(Logos)] %senum Nul%d { #[token(%s)] B, #[regex(%s, priority = 9)] A, #[regex(%s)] C }' % (hdr, k, lit('q'), lit(rx), lit('[r-t]+'))); k += 1
+        out.append('#[derive(Logos)] %senum Nul%d { #[token(%s)] A, #[token(%s)] B }' % (hdr, k, lit(''), lit('q'))); k += 1
+    return out
+
+
 def check_C19(tier):
     import coqeval, json as _json
     res = Result('C19', tier)
@@ -1625,8 +1784,11 @@ def check_C19(tier):
     d = cache_dir('gen', 'c19-%d-%d' % (seed(), n))
     rnd = os.path.join(d, 'c19rand.rs')
     open(rnd, 'w').write('\n'.join(c19_random(rng, n)) + '\n')
+    # ---- every nullable pattern, in every position and both source modes, must be rejected
+    nul = os.path.join(cache_dir('gen', 'c19-nullable'), 'nullable.rs')
+    open(nul, 'w').write('\n'.join(c19_nullable()) + '\n')
     # ---- library entry point under catch_unwind
-    curated = build.capture_files([mal], 'c19-malformed')
+    curated = build.capture_files([mal, nul], 'c19-malformed')
     randcaps = build.capture_files([rnd], 'c19-rand-%d-%d' % (seed(), n))
     repo_caps, rand_graph = ce.corpora(tier, res)
     if len(randcaps) < 0.6 * n:
@@ -1648,6 +1810,26 @@ def check_C19(tier):
                 res.violation(None, '%s must be rejected (it cannot be implemented faithfully / is malformed) but is accepted' % c.id, dict(definition=c.source))
     res.oblige(nacc == 0)
     res.count('curated_must_reject', len(curated))
+    # ---- semantic rule on every accepted definition of every corpus: no leaf matches the empty string
+    # (the raw DFA reports a match right after the start state)
+    nemp = 0
+    for c in list(curated) + list(randcaps) + list(repo_caps) + list(rand_graph):
+        if c.panic is not None or not c.accepted or not c.dfa or c.dfa.get('start') is None:
+            continue
+        res.count('accepted_definitions_checked_for_empty_match')
+        dfa = capmod.Dfa(c)
+        hit = None
+        for u in [256] + list(range(256)):
+            ms = dfa.match(dfa.step(dfa.start, u))
+            if ms:
+                hit = (u, list(ms)); break
+        if dfa.match(dfa.start):
+            hit = (None, list(dfa.match(dfa.start)))
+        if hit:
+            nemp += 1
+            if nemp <= 5:
+                res.violation(None, '%s is accepted although leaf %s matches the empty string' % (c.id, hit[1]), dict(definition=c.source, unit_after_start=hit[0], leaves=hit[1]))
+    res.oblige(nemp == 0)
     # ---- greedy-dot test: Pattern::check_for_greedy_all vs Regex.Greedy.greedy on every captured leaf; and the reject rule
     exprs = []; idx = []
     for c in list(curated) + list(randcaps) + list(repo_caps) + list(rand_graph):
